@@ -8,7 +8,13 @@ import RelicVerif.Gen.Params
 namespace Driver.C18
 open Driver Relic.Model.Param Relic.Gen
 
+/-- the extracted table describes the baseline configuration; contexts of other field sizes (p255, p381, … streams) are not judged
+    against it -/
+def tableCovers (p : Nat) : Bool :=
+  Params.fields.any fun f => Nat.log2 f.prime == Nat.log2 p
+
 def checkAgainstTable (e : C03.Env) : List String :=
+  if !tableCovers e.c.p then [] else
   match (e.kv.lookup "id").bind String.toNat? with
   | none => ["no id"]
   | some id =>
@@ -44,6 +50,7 @@ def checkAgainstTable (e : C03.Env) : List String :=
 
 /-- the twist the library reports (`ep2_param`) against the table extracted from src/epx/relic_ep2_curve.c -/
 def checkTwistAgainstTable (e : C11.Env) : List String :=
+  if !tableCovers e.c.d.p then [] else
   match (e.kv.lookup "id").bind String.toNat? with
   | none => ["no id"]
   | some id =>
